@@ -13,7 +13,12 @@ SPEC = dict(
           "standard residue gets exactly His 1+1, Arg 1+2+2, Asn/Gln 2, Trp 1, backbone 1 (Pro 0) with a steric number and bond count "
           "the builder handles, totals match the group's expectation table, both tables share their keys. Every trigonal/tetrahedral "
           "call of real runs is replayed through the Float model bit-for-bit (incl. an exact model of round(x, 3)); parent count, "
-          "bond length, separation, complement, warnings and orientation independence are evaluated on real runs.",
+          "bond length, separation, complement, warnings and orientation independence are evaluated on real runs. Orientation: over R, for each "
+          "of the 24 grid rotations followed by a translation, the vector helpers, the Rodrigues rotation and hence the code's "
+          "rotate_vector_around_an_axis are equivariant (rotateAround_equivariant), and so are the constructions that do not use an "
+          "arbitrary perpendicular: completing a trigonal centre, completing a tetrahedral centre, a methylene group, an amide / guanidinium "
+          "NH2 (trigonal_completion_equivariant, tetrahedral_completion_equivariant, methylene_equivariant, amide_nh2_equivariant): the "
+          "hydrogens built in the moved frame are the moved hydrogens.",
     note="Partial: the >= 0.5 A separation after the intermediate rounding to 0.001 A follows only informally from the exact d*sqrt(3) "
          "(margin ~1 A); it is measured on every generated structure. Orientation independence is claimed for hydrogens of amino-acid "
          "residues built by default (every such construction is plane- or completion-defined); terminal rotatable hydrogens of hetero "
